@@ -263,6 +263,10 @@ def general(ctx) -> dict:
         sch = tlc_schedules(ctx, "MC_Connection_bfsgen.cfg", 4000 if ctx.quick else None, rng)
         out["tlc"] = run_family(ctx, "tlc", sch)
         out["tlc"]["sample"] = sch[len(sch) // 2]
+        # a close cause (thorough: ordered pairs) before every step of the story, every gap
+        fam = connsim.crash_point_family(DEFAULT_CFGS, pairs=not ctx.quick, rng=rng, limit=None if ctx.quick else 60000)
+        out["crash"] = run_family(ctx, "crash", fam)
+        out["crash"]["sample"] = fam[len(fam) // 3]
         # random stories beyond the bounds
         n = 3000 if ctx.quick else 40000
         fam = random_family(rng, n, 0.2, calls=True, subs=True)
@@ -275,11 +279,13 @@ def general(ctx) -> dict:
 
 def run_general_property(ctx, extra_families=()):
     res = general(ctx)
-    for fam in ("tlc", "random"):
+    for fam in ("tlc", "crash", "random"):
         report(ctx, fam, res[fam])
         ctx.evaluations += res[fam]["n"]
         ctx.extra[f"rows_{fam}"] = res[fam]["rows"]
-    ctx.distinct |= {("tlc", i) for i in range(res["tlc"]["n"])} | {("random", i) for i in range(res["random"]["n"])}
+    for fam in ("tlc", "crash", "random"):
+        ctx.distinct |= {(fam, i) for i in range(res[fam]["n"])}
+    ctx.sample({"crash_point_schedule": res["crash"]["sample"]})
     ctx.sample({"tlc_generated_schedule": res["tlc"]["sample"]})
     ctx.sample({"random_schedule": res["random"]["sample"]})
     ctx.assumptions += [
